@@ -258,6 +258,34 @@ static void run_i2s(char *line) {
     oput("I2S ", 4); ohex(b, r < (size_t) len ? r : (size_t) len); oprintf(" %d %zu", (r < (size_t) len && b[r] == 0) ? 1 : 0, r); free(b);
 }
 
+/* sweep over 32-bit values against an oracle built from libc printf (bases 8, 10, 16) and a plain loop (base 2):
+   I2SSWEEP start count stride  ->  I2SSWEEP n=<conversions> bad=<first mismatch or -> */
+static size_t canon32(uint32_t v, int base, int sign, char *out) {
+    if (base == 10) return (size_t) (sign ? sprintf(out, "%" PRId32, (int32_t) v) : sprintf(out, "%" PRIu32, v));
+    if (base == 16) return (size_t) sprintf(out, "%" PRIX32, v);
+    if (base == 8) return (size_t) sprintf(out, "%" PRIo32, v);
+    { char t[40]; int n = 0; if (!v) t[n++] = '0'; while (v) { t[n++] = (char) ('0' + (v & 1)); v >>= 1; } for (int i = 0; i < n; i++) out[i] = t[n - 1 - i]; out[n] = 0; return (size_t) n; }
+}
+static void run_i2ssweep(char *line) {
+    unsigned long long start, count, stride; sscanf(line, "I2SSWEEP %llu %llu %llu", &start, &count, &stride);
+    static const int bases[4] = { 2, 8, 10, 16 }; unsigned long long n = 0; char bad[200] = "-";
+    char *full = malloc(40);
+    for (unsigned long long k = 0; k < count && bad[0] == '-'; k++) {
+        uint32_t v = (uint32_t) (start + k * stride);
+        for (int bi = 0; bi < 4; bi++) for (int sign = 0; sign < 2; sign++) {
+            char exp[48]; size_t el = canon32(v, bases[bi], sign, exp);
+            memset(full, 0x7e, 40); size_t r = UInt32ToStrBaseSign(v, full, 40, (int8_t) bases[bi], sign); n++;
+            if (r != el || memcmp(full, exp, el) != 0 || full[el] != 0) { snprintf(bad, sizeof bad, "v=%u,base=%d,sign=%d,len=40,got=%.*s,r=%zu,want=%s", v, bases[bi], sign, (int) (r < 40 ? r : 40), full, r, exp); break; }
+            size_t tl = (size_t) ((v ^ (v >> 7) ^ (unsigned) bi) % (el + 2)); char *tb = malloc(tl ? tl : 1); memset(tb, 0x7e, tl ? tl : 1);
+            r = UInt32ToStrBaseSign(v, tb, tl, (int8_t) bases[bi], sign); n++;
+            size_t wantr = el < tl ? el : tl;
+            if (r != wantr || memcmp(tb, exp, wantr) != 0 || (wantr < tl && tb[wantr] != 0)) snprintf(bad, sizeof bad, "v=%u,base=%d,sign=%d,len=%zu,r=%zu,want=%.*s", v, bases[bi], sign, tl, r, (int) wantr, exp);
+            free(tb); if (bad[0] != '-') break;
+        }
+    }
+    free(full); oprintf("I2SSWEEP n=%llu bad=%s", n, bad);
+}
+
 /* ------------------------------------------------------------------ SCPI_ResultError direct (kind RERR) */
 static scpi_t gctx; static char gib[16]; static scpi_error_t geq[4];
 static void ginit(void) { static int done; if (!done) { SCPI_Init(&gctx, cmds, &ifc, scpi_units_def, "a", "b", "c", "d", gib, 16, geq, 4); done = 1; } gctx.output_count = 0; gctx.first_output = TRUE; wl = 0; }
@@ -413,6 +441,7 @@ int main(void) {
         else if (!strncmp(line, "LEX ", 4)) run_lex(line);
         else if (!strncmp(line, "MATCH ", 6)) run_match(line);
         else if (!strncmp(line, "I2S ", 4)) run_i2s(line);
+        else if (!strncmp(line, "I2SSWEEP ", 9)) { alarm(3000); run_i2ssweep(line); }
         else if (!strncmp(line, "RERR ", 5)) run_rerr(line);
         else if (!strncmp(line, "REG ", 4)) run_reg(line);
         else if (!strncmp(line, "EQ ", 3)) run_eq(line);
